@@ -420,6 +420,73 @@ pub fn run(mut run: Run) -> i32 {
             }
         });
     }
+    // f32 coordinates of very different magnitude in a near-collinear configuration (differences of f32 values are not exact in f64 once the exponents are far
+    // apart): a tiny or a huge ordinate on one point, the others on or next to a diagonal; oracle: exact orientation of the f32 values (bigf on their f64 images)
+    {
+        let tiny: Vec<f32> = vec![1e-20, -1e-20, 1e-30, 2e-38, 3e-12, -7e-9];
+        let diag: Vec<(f32, f32)> = vec![(1.0, 1.0), (2.0, 2.0), (3.0, 3.0), (0.5, 0.5), (1.0, 1.0000001), (2.0, 1.9999999)];
+        let nd = diag.len();
+        run.stage("f32-mixed-magnitudes", tiny.len() * nd * nd * 4, move |idx, acc| {
+            let (t, i, j, form) = (tiny[idx / (nd * nd * 4)], (idx / (nd * 4)) % nd, (idx / 4) % nd, idx % 4);
+            if i == j {
+                return;
+            }
+            let first: (f32, f32) = match form { 0 => (t, 0.0), 1 => (0.0, t), 2 => (t, t * 2.0), _ => (t, -t) };
+            let pts: Vec<(f32, f32)> = vec![first, diag[i], diag[j], (3.0, 0.0)];
+            use crate::bigf;
+            let f2 = |p: (f32, f32)| -> bigf::F2 { (p.0 as f64, p.1 as f64) };
+            // exact hull of four points: a point is a (strict) vertex unless it lies on a closed segment between two others or in the closed triangle of the other three
+            let n = pts.len();
+            let mut exact: Vec<usize> = vec![];
+            for a in 0..n {
+                let others: Vec<usize> = (0..n).filter(|&k| k != a).collect();
+                let mut covered = false;
+                for x in 0..others.len() {
+                    for y in x + 1..others.len() {
+                        if bigf::on_segment(f2(pts[others[x]]), f2(pts[others[y]]), f2(pts[a])) {
+                            covered = true;
+                        }
+                    }
+                }
+                let (b, c, d) = (f2(pts[others[0]]), f2(pts[others[1]]), f2(pts[others[2]]));
+                if bigf::orient(b, c, d) != 0 {
+                    let (o1, o2, o3) = (bigf::orient(b, c, f2(pts[a])), bigf::orient(c, d, f2(pts[a])), bigf::orient(d, b, f2(pts[a])));
+                    if (o1 >= 0 && o2 >= 0 && o3 >= 0) || (o1 <= 0 && o2 <= 0 && o3 <= 0) {
+                        covered = true;
+                    }
+                }
+                if !covered {
+                    exact.push(a);
+                }
+            }
+            if exact.len() < 3 {
+                return;
+            }
+            acc.class(format!("f32 mixed magnitudes form{} hull{}", form, exact.len()));
+            let c32: Vec<Coord<f32>> = pts.iter().map(|p| Coord { x: p.0, y: p.1 }).collect();
+            let mut want: Vec<(u32, u32)> = exact.iter().map(|&e| (pts[e].0.to_bits(), pts[e].1.to_bits())).collect();
+            want.sort();
+            for (name, r) in [
+                ("quick_hull<f32> (mixed magnitudes)", guard(|| quick_hull(&mut c32.clone()))),
+                ("graham_hull<f32> (mixed magnitudes)", guard(|| graham_hull(&mut c32.clone(), false))),
+                ("MultiPoint::convex_hull<f32> (mixed magnitudes)", guard(|| MultiPoint(c32.iter().map(|&c| Point(c)).collect()).convex_hull().exterior().clone())),
+            ] {
+                acc.evals += 1;
+                match r {
+                    Err(e) => acc.viol(format!("{} panic", name), idx, || json!({"points": format!("{:?}", pts), "panic": e})),
+                    Ok(ring) => {
+                        let mut got: Vec<(u32, u32)> = ring.0.iter().map(|c| (c.x.to_bits(), c.y.to_bits())).collect();
+                        got.sort();
+                        got.dedup();
+                        // -0.0 / 0.0 do not occur among the inputs, so bit patterns identify the coordinates
+                        if got != want {
+                            acc.viol(format!("{}: vertex set differs from the exact hull", name), idx, || json!({"points": format!("{:?}", pts), "got": format!("{:?}", ring), "exact_hull_indices": format!("{:?}", exact)}));
+                        }
+                    }
+                }
+            }
+        });
+    }
     // a larger point set with many collinear points: every subset of size 6 and 7 of the 3x3 lattice scaled (order = ascending)
     for k in [6usize, 7] {
         let subs = subsets(&g3, k);
